@@ -142,6 +142,22 @@ reg("C08",
     "node's DPR except at life point 'closing'.",
     "controlled-scheduler fault-injection testing (connection faults x life points) with resource/liveness oracles", "DESIGN.md#c08")
 
+reg("C06",
+    WORLD + "Model-based testing: generated event sequences (connect ack/nack, valid and four kinds of invalid CER/CEA, DWR, DWA, DPR, "
+    "DPA, application and misaddressed messages, local stop, FIN/RST, idle, restart; both roles; 0-2 applications) are applied to the "
+    "real node; after every event the reported state, the reference-decoded base-protocol output, deliveries, the state-machine "
+    "thread and (when Closed) the transport are compared with a nondeterministic reference transition model written from RFC 6733 "
+    "5.6 and the statement.",
+    "Sequences are sampled (<= 14 events) under the fair schedule, not enumerated to closure; rows on which the statement is silent "
+    "are nondeterministic; election events are excluded by construction.",
+    "model-based testing against a reference transition model (Hypothesis-generated event histories)", "DESIGN.md#c06")
+reg("C07",
+    WORLD + "History testing with the C06 machinery biased to base requests (boundary identifier values, two requests in one segment, "
+    "outbound backlog across the batch limit, reconnects on the same object); every CEA/DWA/DPA written is reference-decoded and "
+    "matched positionally with the answered requests (command, R clear, both identifiers, local origin, Result-Code).",
+    "Which requests must be answered is decided by the C06 reference model; fair schedule.",
+    "model-based history testing with a positional request/answer oracle", "DESIGN.md#c07")
+
 ALL = [f"C{i:02d}" for i in range(1, 21)]
 
 def main():
